@@ -71,3 +71,14 @@ fn d12_missing_include_name_is_deterministic() {
     assert_eq!(seen.len(), 1, "{seen:?}");
     assert!(seen.iter().next().unwrap().contains("a1"), "{seen:?}");
 }
+
+// D17
+#[test]
+fn d17_targets_roundtrip() {
+    let src = "package a:b targets c:d/w;\n";
+    let doc = Document::parse(src).unwrap();
+    let mut out = String::new();
+    DocumentPrinter::new(&mut out, src, None).document(&doc).unwrap();
+    let doc2 = Document::parse(&out).unwrap_or_else(|e| panic!("printed text must parse: {e:?}\n{out}"));
+    assert_eq!(doc2.directive.targets.as_ref().map(|t| t.string), Some("c:d/w"));
+}
